@@ -452,3 +452,17 @@ Proof.
   - destruct (f s x) eqn:E; simpl in H; [|discriminate].
     eapply IH; [intros; eapply Hf; eauto; right; assumption | | exact H]. eapply Hf; eauto. left. reflexivity.
 Qed.
+
+(* a loop that never leaves early is a fold, for a body that is the step on the states of an invariant *)
+Lemma tfor_fold_inv {X S R : Type} (step : S -> X -> tres S) (P : S -> Prop) (body : X -> S -> tres (ctl R S)) l :
+  (forall x s s', In x l -> P s -> step s x = TOk s' -> P s') ->
+  (forall x s, In x l -> P s -> body x s = match step s x with TOk s' => TOk (Continue s') | TRaise e => TRaise e end) ->
+  forall s (cont : S -> tres R), P s -> tfor l body s cont = (s' <~ tfoldM step l s ;; cont s').
+Proof.
+  induction l as [|x l IH]; intros Hp Hb s cont Hs; simpl; [reflexivity|].
+  rewrite Hb by (auto; left; reflexivity). destruct (step s x) eqn:E; simpl; [|reflexivity].
+  apply IH.
+  - intros. eapply Hp; eauto. right. assumption.
+  - intros. apply Hb; auto. right. assumption.
+  - eapply Hp; eauto. left. reflexivity.
+Qed.
